@@ -213,6 +213,19 @@ func (e *Engine) VerifyFunc(b Bound) (u *Unit) {
 		}
 		cv := u.addObl("cover.return", "some return point is reachable (vacuity guard)", e.pos(fn.Pos()), "true", "(or false "+strings.Join(cs, " ")+")")
 		cv.Cover = true
+		// advisory: every single return point; an unreachable one is either dead code or the trace of
+		// a contradiction among the assumptions on that path (reported, never a violation by itself)
+		if len(fr.rets) > 1 && BlockCovers {
+			for _, r := range fr.rets {
+				p := e.pos(fn.Pos())
+				if n := len(r.blk.Instrs); n > 0 {
+					p = e.pos(r.blk.Instrs[n-1].Pos())
+				}
+				ca := u.addObl("cover.ret", "this return point is reachable (advisory)", p, "true", r.cur)
+				ca.Cover = true
+				ca.Advisory = true
+			}
+		}
 	}
 	return u
 }
